@@ -77,3 +77,38 @@ Fixpoint run_dev_steps (d : dev) (steps : list dstep) : list string :=
     ("- - " ++ show_dev d' 0) :: run_dev_steps d' rest
   end.
 Definition run_dev (steps : list dstep) : string := join " | " (run_dev_steps dev_init steps).
+
+(* ---- kind lex (C04, C01): the token stream up to and including the first error ---- *)
+From VF Require Import Lexer.
+Definition show_token (t : token) : string :=
+  match t with
+  | THeaderMnemonicSeparator => ":" | THeaderQuerySuffix => "?" | TUnitSeparator => ";"
+  | THeaderSeparator => "_" | TDataSeparator => ","
+  | TMnemonic s => "M" ++ show_bytes s
+  | TChar s => "C" ++ show_bytes s
+  | TDec s => "D" ++ show_bytes s
+  | TDecSuffix v s => "S" ++ show_bytes v ++ "/" ++ show_bytes s
+  | TNonDec n => "N" ++ show_N n
+  | TString s => "Q" ++ show_bytes s
+  | TBlock s => "B" ++ show_bytes s
+  | TExpr s => "X" ++ show_bytes s
+  end.
+Definition show_titem (i : titem) : string :=
+  match i with IOk t => show_token t | IErr e => "E" ++ show_Z e end.
+Definition run_lex (params : bool) (input : list N) : string :=
+  match (if params then tokenize_params input else tokenize input) with
+  | Panic s => "PANIC " ++ s
+  | Val [] => "-"
+  | Val l => join " " (map show_titem l)
+  end.
+
+(* grammar-stream cases of C04: the AST is rendered and tokenised by the SPEC (Grammar.v); any
+   disagreement between the spec's rendering and the generator's bytes, a non-well-formed AST,
+   or spec tokens differing from the model lexer's tokens shows up as a marker *)
+From VF Require Import Grammar.
+Definition run_lexspec (m : msg) (pybytes : list N) : string :=
+  let r := run_lex false pybytes in
+  let spec := match tokens_of m with [] => "-" | l => join " " (map show_token l) end in
+  r ++ (if wf_msg m then "" else " !wf")
+    ++ (if bytes_eqb (render_msg m) pybytes then "" else " !render")
+    ++ (if String.eqb spec r then "" else " !tokens").
